@@ -291,7 +291,12 @@ pub struct Env<'a> {
 
 const USER_NAMES: [&str; 6] = ["owner000", "user0001", "user0002", "user0003", "rogue004", "newowner5"];
 // denoms chosen so that concatenations collide: "uaura"+"uusd" == "uaurau"+"usd"
-const DENOMS: [(&str, u8); 6] = [("uaura", 6), ("uusd", 6), ("uaurau", 18), ("usd", 0), ("ibc/1F", 8), ("uaurauusd", 6)];
+// the last three are native denoms whose text equals the address of one of the cw20 tokens (equal display text,
+// different asset kind): cw-multi-test allocates contract0 = factory, contract1 = router, contract2..4 = tokens
+const DENOMS: [(&str, u8); 9] = [
+    ("uaura", 6), ("uusd", 6), ("uaurau", 18), ("usd", 0), ("ibc/1F", 8), ("uaurauusd", 6),
+    ("contract2", 6), ("contract3", 6), ("contract4", 6),
+];
 
 impl<'a> Env<'a> {
     fn aid(&mut self, s: &str) -> u64 {
@@ -513,9 +518,13 @@ impl<'a> Env<'a> {
                         let nl = self.aid(&la);
                         line.push_str(&format!(" created {np} {nl}"));
                         self.pairs.push(PairMeta { addr: np, lp: nl, a0: *a0, a1: *a1 });
-                        self.accounts.push(np);
-                        self.accounts.push(nl);
-                        self.assets.push(A::T(nl));
+                        // balances are observed for the first 8 pairs only (pair / pool / registry observations for all):
+                        // keeps registries of 40+ pairs affordable
+                        if self.pairs.len() <= 8 {
+                            self.accounts.push(np);
+                            self.accounts.push(nl);
+                            self.assets.push(A::T(nl));
+                        }
                         writeln!(self.w, "{line}").unwrap();
                         self.decl_asset(A::T(nl));
                         self.observe();
@@ -847,8 +856,8 @@ impl Gen {
             0 if !c.is_empty() => { c[0].1 = c[0].1.saturating_add(1); }
             1 if !c.is_empty() => { c[0].1 = c[0].1.saturating_sub(1); }
             2 if !c.is_empty() => { c.remove(0); }
-            3 => { c.push((r.below(6), 1 + r.below(1000) as u128)); }
-            4 => { c.insert(0, (r.below(6), r.below(3) as u128)); }
+            3 => { c.push((r.below(9), 1 + r.below(1000) as u128)); }
+            4 => { c.insert(0, (r.below(9), r.below(3) as u128)); }
             _ => {}
         }
         // a chain validates coins as sorted and duplicate-free before a contract runs; cw-multi-test does not.
@@ -923,6 +932,11 @@ impl Gen {
                 }
             }
         }
+    }
+    /// the native denom whose text equals the address of token `t`, if any
+    fn alias_of(&self, e: &Env, t: u64) -> Option<u64> {
+        let name = e.astr(t);
+        e.denoms.iter().position(|d| *d == name).map(|i| i as u64)
     }
     fn plain_funds(&self, assets: &[(A, u128)]) -> Coins {
         assets.iter().filter_map(|(a, amt)| if let A::N(d) = a { Some((*d, *amt)) } else { None }).collect()
@@ -1009,6 +1023,9 @@ impl Gen {
                         if r.chance(1, 15) {
                             // token offer through execute-swap (must be rejected)
                             Op::Swap { s: u, p: pm.addr, funds: vec![], offer: named, amt: named_amt, belief, ms, to }
+                        } else if let (true, Some(al)) = (r.chance(1, 10), self.alias_of(e, t)) {
+                            // a native coin whose denom reads like the token's address, named as the offer
+                            Op::Swap { s: u, p: pm.addr, funds: vec![(al, amt)], offer: A::N(al), amt, belief, ms, to }
                         } else {
                             Op::TokSend { t, s: u, d: pm.addr, amt, hook: Hook::Swap { offer: named, amt: named_amt, belief, ms, to } }
                         }
@@ -1038,6 +1055,8 @@ impl Gen {
                     _ => (pm.a0, pm.a1),
                 };
                 let (m0, m1) = if x0 == pm.a1 && x1 == pm.a0 { (d1, d0) } else { (d0, d1) };
+                // rarely: declare a token deposit under the native denom that reads like the token's address
+                let x0 = match x0 { A::T(t) if r.chance(1, 25) => self.alias_of(e, t).map(A::N).unwrap_or(x0), _ => x0 };
                 let funds = self.funds_for(r, &[(x0, m0), (x1, m1)]);
                 let rcv = match r.below(5) { 0 => Some(self.user(e, r)), _ => None };
                 Op::Provide { s, p: pm.addr, funds, as0: x0, am0: m0, as1: x1, am1: m1, tol, rcv }
@@ -1119,7 +1138,7 @@ impl Gen {
                 };
                 match first_offer {
                     A::N(d) => {
-                        let funds = match r.below(12) { 0 => vec![], 1 => vec![(d, amt), ((d + 1 + r.below(5)) % 6, 5)], _ => vec![(d, amt)] };
+                        let funds = match r.below(12) { 0 => vec![], 1 => vec![(d, amt), ((d + 1 + r.below(8)) % 9, 5)], _ => vec![(d, amt)] };
                         Op::ROps { s: u, funds, ops, min, to }
                     }
                     A::T(t) => {
@@ -1171,9 +1190,9 @@ impl Gen {
                 match r.below(7) {
                     0 => Op::FCfg { s, funds: vec![], owner: Some(s) },
                     1 => Op::FCreate { s, funds: vec![], a0: A::N(0), a1: A::T(e.tokens[2]), wl: vec![s], min0: 0, min1: 0, comm: None },
-                    2 => Op::FAdd { s, funds: vec![], denom: r.below(6), decimals: 7 },
+                    2 => Op::FAdd { s, funds: vec![], denom: r.below(9), decimals: 7 },
                     3 => Op::FMig { s, funds: vec![], p: pm.addr },
-                    4 => Op::PairUpd { s, p: pm.addr, funds: vec![], denom: r.below(6), da: 9, db: 9 },
+                    4 => Op::PairUpd { s, p: pm.addr, funds: vec![], denom: r.below(9), da: 9, db: 9 },
                     5 => Op::ROp { s, funds: vec![], offer: pm.a0, ask: pm.a1, to: Some(s) },
                     _ => Op::RAssert { s, funds: vec![], asset: pm.a1, prev: 0, min: 0, rcv: s },
                 }
@@ -1242,10 +1261,25 @@ pub fn run(w: &mut dyn Write, family: &str, nseq: u64, nsteps: u64, seed: u64) {
         g.setup_pairs(&mut e, &mut r, npairs);
         if family == "factory" {
             // many pairs over few denoms: the fan-out and the pagination need more than one page
-            let extra = r.range(0, 14);
-            for _ in 0..extra {
-                let a0 = g.any_asset(&e, &mut r);
-                let a1 = g.any_asset(&e, &mut r);
+            // (every fifth sequence: more than the maximum page size of 30)
+            let extra = if seq % 5 == 0 { r.range(28, 44) } else { r.range(0, 14) };
+            // distinct unordered asset sets not yet registered, in random order
+            let mut all: Vec<A> = (0..e.denoms.len() as u64).map(A::N).collect();
+            all.extend(e.tokens.iter().map(|t| A::T(*t)));
+            let mut combos: Vec<(A, A)> = vec![];
+            for i in 0..all.len() {
+                for j in (i + 1)..all.len() {
+                    let (x, y) = (all[i], all[j]);
+                    if !e.pairs.iter().any(|pm| (pm.a0 == x && pm.a1 == y) || (pm.a0 == y && pm.a1 == x)) {
+                        combos.push(if r.chance(1, 2) { (x, y) } else { (y, x) });
+                    }
+                }
+            }
+            for i in (1..combos.len()).rev() {
+                let j = r.below(i as u64 + 1) as usize;
+                combos.swap(i, j);
+            }
+            for (a0, a1) in combos.into_iter().take(extra as usize) {
                 let owner = e.users[0];
                 e.step(Op::FCreate { s: owner, funds: vec![], a0, a1, wl: vec![e.users[1]], min0: 0, min1: 0, comm: None });
             }
